@@ -6,13 +6,17 @@
   pages <sel> <maxpages>       model: get_pages                             -> page;page;...[;E:Err] | -
   spec.pages                   specification on the unfolded tree           -> same form | outside-domain
   spec.select <sel> <maxpages> specSelect on the model's page list          -> same form
+  pagespy <pagenos> <maxpages> model: get_pages with Python-level arguments (pagenos none | - | ints with
+                               duplicates/negatives, maxpages any integer)  -> page;page;...[;E:Err] | -
+  spec.selectpy <pagenos> <maxpages> specSelectPy on the model's page list  -> same form | outside-domain
+  spec.order                   specOrder (first arrivals over all simple Kids paths) -> ids | - | outside-domain
   render <rot> <box4> <tx> <ty>      model: LTPage.bbox + glyph matrix      -> 10 rationals
   spec.render <rot> <box4> <tx> <ty> specification of the same              -> 10 rationals | outside-domain
   xmlbox <rot> <rotation> <box4>     model: LTPage.bbox under extract_text_to_fp(rotation=) -> 4 rationals
   rotate <r>                   norm_rotate                                  -> integer
 
-  object syntax:  atoms i:<int> r:<p/q> n:<name> R:<n> null ; arrays [ a a ] ; flat dictionaries { k a k a } ;
-                  (array elements may also be flat dictionaries) ; dictionary objects << k v k v >>
+  object syntax:  atoms i:<int> r:<p/q> n:<name> R:<n> null ; arrays [ v v ] ; direct dictionaries { k v k v }
+                  (values nest to any depth) ; dictionary objects << k v k v >>
 -/
 import PdfVerif.Spec.PageTree
 
@@ -26,28 +30,30 @@ def parseAtom (s : String) : Option Atom :=
   else if s.startsWith "R:" then Atom.ref <$> (s.drop 2).toString.toNat?
   else none
 
-partial def parseFlat : List String → List (String × Atom) → Option (List (String × Atom) × List String)
-  | "}" :: rest, acc => some (acc.reverse, rest)
-  | k :: t :: rest, acc => match parseAtom t with
-    | some a => parseFlat rest ((k, a) :: acc)
-    | none => none
-  | _, _ => none
+mutual
+  /-- Entries of a direct dictionary up to `}`. -/
+  partial def parseFlat : List String → List (String × Val) → Option (List (String × Val) × List String)
+    | "}" :: rest, acc => some (acc.reverse, rest)
+    | k :: rest, acc => match parseVal rest with
+      | some (v, rest') => parseFlat rest' ((k, v) :: acc)
+      | none => none
+    | _, _ => none
 
-partial def parseElems : List String → List Elem → Option (List Elem × List String)
-  | "]" :: rest, acc => some (acc.reverse, rest)
-  | "{" :: rest, acc => match parseFlat rest [] with
-    | some (kvs, rest') => parseElems rest' (Elem.dict kvs :: acc)
-    | none => none
-  | t :: rest, acc => match parseAtom t with
-    | some a => parseElems rest (Elem.atom a :: acc)
-    | none => none
-  | [], _ => none
+  /-- Elements of an array up to `]`. -/
+  partial def parseElems : List String → List Elem → Option (List Elem × List String)
+    | "]" :: rest, acc => some (acc.reverse, rest)
+    | [], _ => none
+    | ts, acc => match parseVal ts with
+      | some (v, rest') => parseElems rest' (v :: acc)
+      | none => none
 
-def parseVal : List String → Option (Val × List String)
-  | "[" :: rest => (fun r => (Val.arr r.1, r.2)) <$> parseElems rest []
-  | "{" :: rest => (fun r => (Val.dict r.1, r.2)) <$> parseFlat rest []
-  | t :: rest => (fun a => (Val.atom a, rest)) <$> parseAtom t
-  | [] => none
+  /-- One value: atom, `[ … ]`, `{ k v … }` (nested to any depth). -/
+  partial def parseVal : List String → Option (Val × List String)
+    | "[" :: rest => (fun r => (Val.arr r.1, r.2)) <$> parseElems rest []
+    | "{" :: rest => (fun r => (Val.dict r.1, r.2)) <$> parseFlat rest []
+    | t :: rest => (fun a => (Val.atom a, rest)) <$> parseAtom t
+    | [] => none
+end
 
 partial def parseDict : List String → Dict → Option (Dict × List String)
   | ">>" :: rest, acc => some (acc.reverse, rest)
@@ -90,6 +96,11 @@ def showPages (r : List Page × Option Err) : String :=
 def parseSel (s : String) : Option (List Nat) :=
   if s == "none" || s == "-" then some [] else (s.splitOn ",").mapM (fun (w : String) => w.toNat?)
 
+def parsePagenos (s : String) : Option (Option (List Int)) :=
+  if s == "none" then some none
+  else if s == "-" then some (some [])
+  else some <$> (s.splitOn ",").mapM (fun (w : String) => w.toInt?)
+
 def showRender (r : Rect × Matrix) : String :=
   let (a, b, c, d, e, f) := r.2
   showBox r.1 ++ " " ++ " ".intercalate ([a, b, c, d, e, f].map ratToString)
@@ -114,6 +125,27 @@ def step (st : St) (line : String) : St × String :=
     match docTree st.store st.fuel st.catalog with
     | some t => (st, showPages (specPages st.store t))
     | none => (st, "outside-domain")
+  | ["pagespy", pn, mp] =>
+    match parsePagenos pn, mp.toInt? with
+    | some pn, some mp =>
+      let r := createPages st.store st.ids st.fuel st.catalog
+      (st, showPages (getPagesPy pn mp 0 r.1 r.2))
+    | _, _ => (st, "bad-op")
+  | ["spec.selectpy", pn, mp] =>
+    match parsePagenos pn, mp.toInt? with
+    | some pn, some mp =>
+      let r := createPages st.store st.ids st.fuel st.catalog
+      (st, if r.2.isSome || mp < 0 then "outside-domain" else showPages (specSelectPy pn mp r.1, none))
+    | _, _ => (st, "bad-op")
+  | ["spec.order"] =>
+    match dget st.catalog "Pages" with
+    | some (.atom (.ref r)) =>
+      let w := treeWalk st.store st.fuel st.catalog
+      if w.err.isSome || w.pages.isEmpty then (st, "outside-domain")   -- exception / fallback scan
+      else
+        let ids := specOrder st.store r
+        (st, if ids.isEmpty then "-" else " ".intercalate (ids.map toString))
+    | _ => (st, "outside-domain")
   | ["spec.select", sel, mp] =>
     match parseSel sel, mp.toNat? with
     | some sel, some mp =>
